@@ -339,6 +339,33 @@ ITEMS = location_types() + budget_types() + error_types() + [
                 dict(before_re=r'return Err\(Error::NullIntoString \{ location: loc \}\);', label='C06:only_a_null_tag_or_a_plain_null_like_scalar_not_tagged_str_is_refused_as_null',
                      text='assert(rest0.len() > 0 && rest0[0] is Scalar && !(rest0[0]->Scalar_tag is String) && (rest0[0]->Scalar_tag is Null || unit_scalar(rest0[0])));')],
         canaries=['C09:a_borrowed_string_target_is_handed_exactly_what_an_owned_string_target_is_handed']),
+    # ---- one-line delegations of the Deserializer impl: the target kind decides nothing beyond the delegate (C05) ----
+    dict(src=D, path=YD + 'fn deserialize_f32', id='YamlDeserializer::deserialize_f32',
+        impl_header="impl<'de, 'e> YamlDeserializer<'de, 'e>", props=['C06', 'C19', 'C05', 'C01'],
+        pre_rewrites=[(r"fn deserialize_f32<V: Visitor<'de>>\(mut self, visitor: V\) -> Result<V::Value, Self::Error>",
+                       'fn deserialize_f32(mut self, visitor: Vis) -> Result<VisVal, Error>', 1, 'R9')],
+        rewrites=[(r'let v: f32 = parse_yaml12_float\(', 'let v: f32 = ty_parse_float_f32(', 1, 'R9')],
+        proofs=[dict(at='start', ghost=True, text='let ghost rest0 = self.ev.rest();'),
+                dict(before='visitor.visit_f32(v)', label='C05:exactly_one_event_consumed_before_the_visitor_runs', text='assert(this.ev.rest() == rest0.skip(1));')],
+        ensures=[('C06:float_is_parsed_from_exactly_the_scalar_text_with_its_tag_and_the_angle_option_as_configured', '''match r {
+              Ok(val) => old(self.ev).rest().len() > 0 && match old(self.ev).rest()[0] {
+                    Ev::Scalar { value, tag, .. } => match sp_float32(encode_utf8(value@), tag, self.cfg.angle_conversions) {
+                        Some(x) => Ok::<VisVal, Error>(val) == vis_f32(visitor, x), None => false },
+                    _ => false },
+              Err(_) => true }''')],
+        canaries=['C06:float_is_parsed_from_exactly_the_scalar_text_with_its_tag_and_the_angle_option_as_configured']),
+    dict(src=D, path=YD + 'fn deserialize_tuple', id='YamlDeserializer::deserialize_tuple',
+        impl_header="impl<'de, 'e> YamlDeserializer<'de, 'e>", props=['C05', 'C01'],
+        pre_rewrites=[(r"fn deserialize_tuple<V: Visitor<'de>>\(\s*self,\s*_len: usize,\s*visitor: V,\s*\) -> Result<V::Value, Self::Error>",
+                       'fn deserialize_tuple(self, _len: usize, visitor: Vis) -> Result<VisVal, Error>', 1, 'R9')],
+        ensures=[('C05:a_tuple_is_read_exactly_like_a_sequence_arity_is_left_to_the_visitor', 'r == vis_seq(visitor, old(self.ev).rest(), self.cfg)')],
+        canaries=['C05:a_tuple_is_read_exactly_like_a_sequence_arity_is_left_to_the_visitor']),
+    dict(src=D, path=YD + 'fn deserialize_tuple_struct', id='YamlDeserializer::deserialize_tuple_struct',
+        impl_header="impl<'de, 'e> YamlDeserializer<'de, 'e>", props=['C05', 'C01'],
+        pre_rewrites=[(r"fn deserialize_tuple_struct<V: Visitor<'de>>\(\s*self,\s*_name: &'static str,\s*_len: usize,\s*visitor: V,\s*\) -> Result<V::Value, Self::Error>",
+                       "fn deserialize_tuple_struct(self, _name: &'static str, _len: usize, visitor: Vis) -> Result<VisVal, Error>", 1, 'R9')],
+        ensures=[('C05:a_tuple_struct_is_read_exactly_like_a_sequence', 'r == vis_seq(visitor, old(self.ev).rest(), self.cfg)')],
+        canaries=['C05:a_tuple_struct_is_read_exactly_like_a_sequence']),
     dict(src=D, path=YD + 'fn deserialize_f64', id='YamlDeserializer::deserialize_f64',
         impl_header="impl<'de, 'e> YamlDeserializer<'de, 'e>", props=['C06', 'C19', 'C05', 'C01'],
         pre_rewrites=[(r"fn deserialize_f64<V: Visitor<'de>>\(mut self, visitor: V\) -> Result<V::Value, Self::Error>",
